@@ -875,7 +875,7 @@ class MailExecutor(UnitsExecutor):
                 e = e.args[0]
             label = e.attr if isinstance(e, ast.Attribute) else (e.id if isinstance(e, ast.Name) else "loop")
             wild = self.contract.loops["*"]
-            return LoopSpec(inv=wild.inv, label=label)
+            spec = LoopSpec(inv=wild.inv, label=label)
         if spec is not None and spec.inv is not None and not getattr(spec.inv, "_records_checked", False):
             import dataclasses
             inner = spec.inv
